@@ -17,7 +17,7 @@ LEVEL_TEXT = ("Runtime monitoring of calc_holo / calc_field / calc_intensity on 
 LEVEL_NOTE = "Trusted: numpy/xarray; gfortran code generation (opt vs chk vs asan builds are each compared only with themselves)."
 TECHNIQUE = "runtime monitoring: contract monitors + recomputation oracle on recorded executions; history permutation/interleaving with bitwise trace comparison; bounds-checked and ASan/UBSan builds"
 RULE = ("identity: configs drawn from 11 (scatterer,theory) kinds with random theory options, grid (incl 1xN, anisotropic, "
-        "shifted, cropped) or point detectors, polarization angle in [0,2pi) with non-unit norm, scaling in {0,1,random}, "
+        "shifted, cropped, z stacks, axes stored in another order, one labelled channel, user metadata named like coordinates) or point detectors, polarization angle in [0,2pi) with non-unit norm, scaling in {0,1,random}, "
         "optics given as arguments / on the detector / mixed; history: K calculations x orders. non-trivial = scattered "
         "field not identically zero and hologram not constant; distinct by rounded case JSON")
 ASSUMPTIONS = ["Tmatrix is driven with polarization (1,0) only, as the theory demands",
